@@ -18,7 +18,7 @@ static int nth_operand(long k, int na, int maxl, mp_limb_t *out) {
 }
 static long count_operands(int na, int maxl) { long s = 0, c; int l, i; for (l = 1; l <= maxl; l++) { c = na - 1; for (i = 1; i < l; i++) c *= na; s += c; } return s; }
 static int wantf(const shard_t *sh, const char *name) {
-  const char *fl = opt_val(sh, "funs"); char pat[96], all[400];
+  const char *fl = opt_val(sh, "funs"); char pat[96], all[4096];
   if (!fl) return 1;
   snprintf(pat, sizeof pat, ":%s:", name); snprintf(all, sizeof all, ":%s:", fl); return strstr(all, pat) != NULL;
 }
